@@ -19,12 +19,54 @@ def _z3_worker(args):
         if r == z3.sat and want_model:
             try:
                 m = s.model()
-                model = {str(d): str(m[d]) for d in m.decls() if '!' in str(d) or True}
+                model = {}
+                for d in m.decls():
+                    if d.arity() == 0:
+                        try:
+                            model[str(d)] = to_py(m, d())
+                        except Exception:
+                            model[str(d)] = str(m[d])
             except Exception as e:  # noqa
                 model = {'_error': repr(e)}
         return name, str(r), model, int((time.time() - t0) * 1000), 'z3'
     except Exception as e:  # solver crash is "unknown", never a verdict
         return name, 'unknown', {'_error': repr(e)}, int((time.time() - t0) * 1000), 'z3'
+
+
+def to_py(m, term, depth=0):
+    """z3 model value of a term -> plain python (ints, floats, strings, tuples, None, lists)"""
+    import z3
+    v = m.eval(term, model_completion=True)
+    srt = v.sort()
+    k = srt.kind()
+    if k == z3.Z3_INT_SORT:
+        return v.as_long()
+    if k == z3.Z3_REAL_SORT:
+        if z3.is_algebraic_value(v):
+            v = v.approx(12)
+        fr = v.as_fraction()
+        return float(fr) if fr.denominator != 1 else float(fr.numerator)
+    if k == z3.Z3_BOOL_SORT:
+        return z3.is_true(v)
+    if k == z3.Z3_SEQ_SORT:
+        return v.as_string()
+    if k == z3.Z3_DATATYPE_SORT:
+        name = srt.name()
+        cname = v.decl().name()
+        if name == 'NoneT' or cname == 'none':
+            return None
+        if cname == 'some':
+            return to_py(m, v.arg(0), depth + 1)
+        if name.startswith('T_'):
+            return tuple(to_py(m, v.arg(i), depth + 1) for i in range(v.num_args()))
+        if name.startswith('L_'):
+            n = to_py(m, srt.accessor(0, 1)(v))
+            arr = srt.accessor(0, 0)(v)
+            return [to_py(m, z3.Select(arr, i), depth + 1) for i in range(max(0, min(n, 64)))]
+        if name.startswith('R_'):
+            return {srt.accessor(0, i).name(): to_py(m, srt.accessor(0, i)(v), depth + 1)
+                    for i in range(srt.constructor(0).arity())}
+    return str(v)
 
 
 def _cvc5_worker(args):
